@@ -248,7 +248,7 @@ func seqs(alpha []string, maxLen int, f func(string)) {
 }
 
 // resetEvery is the number of evaluations after which ANTLR's prediction caches are dropped (overlay accessor in cypher/parser).
-const resetEvery = 50000
+const resetEvery = 2000
 
 func main() {
 	if spec := os.Getenv("VERIF_C08_FAMILY"); spec != "" {
